@@ -54,6 +54,8 @@ pub enum Op {
     DropContent,
     /// `set_stream` of these messages (single-line texts: the framing of messages is C17's subject)
     Stream(Vec<String>),
+    /// `res.status = …` (a public field): the status the response is sent with is the last one assigned
+    Status(u8),
 }
 
 #[derive(Debug, Clone, Serialize, Deserialize)]
@@ -68,6 +70,11 @@ pub struct Case {
     /// same thread — what happens when two connections share a runtime thread and the first send is suspended
     #[serde(default)]
     pub interleave: Option<u8>,
+}
+
+/// the status the response goes out with
+fn final_status(case: &Case) -> u16 {
+    case.ops.iter().rev().find_map(|op| if let Op::Status(i) = op { Some(STATUSES[*i as usize % STATUSES.len()]) } else { None }).unwrap_or(case.status)
 }
 
 pub const STATUSES: [u16; 64] = [
@@ -130,6 +137,7 @@ fn apply(res: &mut Response, op: &Op) {
         Op::Set(h, v) => set_std(res, *h, Action::Set(v.clone())),
         Op::Append(h, v) => set_std(res, *h, Action::Append(v.clone())),
         Op::Remove(h) => set_std(res, *h, Action::Remove),
+        Op::Status(i) => res.status = Status::from(STATUSES[*i as usize % STATUSES.len()]),
         Op::SetX(n, v) => {
             res.headers.set().x(CUSTOM[*n as usize % CUSTOM.len()], v.clone());
         }
@@ -219,6 +227,7 @@ fn model_of(case: &Case) -> Model {
             Op::Remove(h) => {
                 m.headers.remove(STD[*h as usize % STD.len()]);
             }
+            Op::Status(_) => {}
             Op::SetX(n, v) => set(&mut m, CUSTOM[*n as usize % CUSTOM.len()], v),
             Op::AppendX(n, v) => app(&mut m, CUSTOM[*n as usize % CUSTOM.len()], v),
             Op::RemoveX(n) => {
@@ -316,6 +325,7 @@ fn op_strategy() -> impl Strategy<Value = Op> {
         1 => (0u8..3, vec(any::<u8>(), 0..300)).prop_map(|(c, b)| Op::Payload(c, b)),
         2 => Just(Op::DropContent),
         1 => vec("[a-z0-9 ]{0,12}", 0..4).prop_map(Op::Stream),
+        1 => prop_oneof![2 => 0u8..64, 1 => Just(4u8), 1 => Just(5u8), 1 => Just(8u8), 1 => Just(18u8)].prop_map(Op::Status),
     ]
 }
 
@@ -331,7 +341,7 @@ fn has_invalid_value(case: &Case) -> bool {
 impl Property for C03 {
     type Case = Case;
     const ID: &'static str = "C03";
-    const RULE: &'static str = "generated: status from the whole Status enum × GET/HEAD × a history of 0–40 (thorough: up to 400, long enough to wrap the 8-bit slot index) public Response operations (set/append/remove on 13 standard headers incl. Content-Type and the misspelt Content-Encoding, 4 custom names and 3 standard names through the by-name entry point `.x()`, Set-Cookie with directive subsets, set_text/html/json/payload, set_stream, drop_content), biased toward re-use of the same header; values printable ASCII/UTF-8 of length 0–5000 without CR/LF/NUL; framing headers never set by hand. Executed inside a real handler, through the real router (complete, HEAD handling) and serializer into a Vec. Oracle: independent response parser + a model of the history (name → latest value under an independently written canonical-name table; appends joined with ', '), framing rules of the statement, bytes written ≤ bytes reserved (hook H3 turns an overrun into a panic). Non-trivial = remove followed by set/append of the same header, or ≥ 3 operations on one header, or a content replacement/drop, or status 204/304, or HEAD; distinct by case.";
+    const RULE: &'static str = "generated: status from the whole Status enum × GET/HEAD × a history of 0–40 (thorough: up to 400, long enough to wrap the 8-bit slot index) public Response operations (set/append/remove on 13 standard headers incl. Content-Type and the misspelt Content-Encoding, 4 custom names and 3 standard names through the by-name entry point `.x()`, Set-Cookie with directive subsets, set_text/html/json/payload, set_stream, drop_content, assignments to the public `status` field — the response goes out with the last one), biased toward re-use of the same header; values printable ASCII/UTF-8 of length 0–5000 without CR/LF/NUL; framing headers never set by hand. Executed inside a real handler, through the real router (complete, HEAD handling) and serializer into a Vec. Oracle: independent response parser + a model of the history (name → latest value under an independently written canonical-name table; appends joined with ', '), framing rules of the statement, bytes written ≤ bytes reserved (hook H3 turns an overrun into a panic). Non-trivial = remove followed by set/append of the same header, or ≥ 3 operations on one header, or a content replacement/drop, or status 204/304, or HEAD; distinct by case.";
     const ASSUMPTIONS: &'static [&'static str] = &[
         "header values contain no CR/LF/NUL and Content-Length/Transfer-Encoding are never set by hand (documented as the user's responsibility)",
         "1xx and 304 are only checked for self-consistency (the statement does not mention them)",
@@ -400,7 +410,7 @@ impl Property for C03 {
             if case.ops.len() > 255 {
                 obs.label("long-history")
             }
-            obs.nontrivial = rs || per.values().any(|e| e.0 >= 3) || content_ops >= 2 || case.ops.contains(&Op::DropContent) || case.status == 204 || case.status == 304 || case.head;
+            obs.nontrivial = rs || per.values().any(|e| e.0 >= 3) || content_ops >= 2 || case.ops.contains(&Op::DropContent) || final_status(case) == 204 || final_status(case) == 304 || case.head || case.ops.iter().any(|o| matches!(o, Op::Status(_)));
         }
         CURRENT.with(|c| *c.borrow_mut() = Some(case.clone()));
         let method = if case.head { "HEAD" } else { "GET" };
@@ -457,7 +467,7 @@ impl Property for C03 {
                 obs.fail("overrun:written-exceeds-declared", format!("wrote {} bytes, reserved {d}", ex.wire.len()));
             }
         }
-        let status = case.status;
+        let status = final_status(case);
         let self_consistent_only = (100..200).contains(&status) || status == 304;
         if m.stream.is_some() {
             obs.label("stream-content");
